@@ -203,7 +203,7 @@ func waitLoops(want int) int {
 	if want < 0 {
 		return bucketLoops()
 	}
-	dl := time.Now().Add(1500 * time.Millisecond)
+	dl := time.Now().Add(400 * time.Millisecond)
 	for {
 		n := bucketLoops()
 		if n == want || time.Now().After(dl) {
